@@ -144,10 +144,12 @@ ADD_LOOP = '''invariant
 
 ADD_PROOF = [
     (r'let module_parts: Vec<&str> =', 'before', '''let ghost n1 = self.module_nodes@; let ghost fm1 = self.file_module_map@; let ghost nt1 = self.module_name_to_file_ids@;
-        let ghost cnt1 = self.id_counter;'''),
+        let ghost cnt1 = self.id_counter;
+        proof { lemma_add_inv_init(n1, root, fm1, nt1, cnt1); }'''),
+    (r'let mut parent_node_id = self\.module_root_id;', 'after', 'proof { assert(texts(module_parts@).take(0) =~= Seq::<Seq<char>>::empty()); }'),
     (r'let child_id = \{', 'before', '''let ghost m_in = self.module_nodes@; let ghost cnt_in = self.id_counter; let ghost cur = parent_node_id;
             let ghost pre_parts = texts(module_parts@).take(it.index@ as int); let ghost t = part@;
-            proof { assert(*part == module_parts@[it.index@ as int]); lemma_texts_distinct(m_in, root, Some(cur), cur); }'''),
+            proof { assert(*part == module_parts@[it.index@ as int]); lemma_add_inv_facts(n1, m_in, root, cur, pre_parts, fm1, cnt1, cnt_in); }'''),
     (r'if let std::collections::hash_map::Entry::Vacant\(e\)', 'before', 'let ghost m1 = self.module_nodes@;'),
     (r'\bparent_node_id = \w+;', 'before', '''proof {
                 assert(texts(module_parts@).take(it.index@ as int + 1) =~= pre_parts.push(t));
@@ -169,7 +171,10 @@ ADD_PROOF = [
                 }
             }'''),
     (r'let node = self\.module_nodes\.get_mut\(&parent_node_id\)\?;', 'before', '''let ghost m_end = self.module_nodes@; let ghost cnt_end = self.id_counter;
-        proof { assert(texts(module_parts@).take(module_parts@.len() as int) =~= texts(module_parts@)); }'''),
+        proof {
+            assert(texts(module_parts@).take(module_parts@.len() as int) =~= texts(module_parts@));
+            lemma_add_inv_facts(n1, m_end, root, parent_node_id, texts(module_parts@), fm1, cnt1, cnt_end);
+        }'''),
     (r'if self\.fuzzy_search \{', 'before', 'let ghost mname = module_name;'),
     (r'Some\(\(\)\)\s*\}\s*$', 'before', '''proof {
             let info = self.file_module_map@[file_id];
@@ -352,7 +357,7 @@ UNIT = {
                     assert(has_child(self.module_nodes@, parent_node_id, k));
                 }
             }'''),
-                (r'parent_node_id = child_id;', 'before', '''proof {
+                (r'\bparent_node_id = \w+;', 'before', '''proof {
                 let k = choose|k: String| #[trigger] parent_node.children@.contains_key(k) && k@ == part@;
                 assert(has_child(self.module_nodes@, parent_node_id, k));
                 lemma_child_by_text_hit(parent_node.children@, k);
@@ -411,7 +416,7 @@ UNIT = {
                     assert(has_child(self.module_nodes@, parent_node_id, k));
                 }
             }'''),
-                (r'parent_node_id = \*child_id;', 'before', '''proof {
+                (r'\bparent_node_id = \*?\w+;', 'before', '''proof {
                 let k = choose|k: String| #[trigger] parent_node.children@.contains_key(k) && k@ == part@;
                 assert(has_child(self.module_nodes@, parent_node_id, k));
                 lemma_child_by_text_hit(parent_node.children@, k);
@@ -484,6 +489,15 @@ UNIT = {
          'expect': r'C33\.module\.'},
         {'name': 'add-walk-does-not-descend', 'item': 'LuaModuleIndex::add_module_by_module_path', 'pattern': r'parent_node_id = child_id;', 'repl': 'parent_node_id = parent_node_id;',
          'expect': r'C33\.module\.'},
+        {'name': 'find-walk-does-not-descend', 'item': 'LuaModuleIndex::exact_find_module', 'pattern': r'parent_node_id = child_id;', 'repl': 'parent_node_id = parent_node_id;',
+         'expect': r'C33\.module\.find-walk\.inv'},
+        {'name': 'find-prefers-hidden', 'item': 'LuaModuleIndex::exact_find_module', 'pattern': r'\|\| !module_info\.visible\.is_hidden\(\)', 'repl': '|| module_info.visible.is_hidden()',
+         'expect': r'C33\.module\.find-(resolves-path|pick)'},
+        {'name': 'find-module-drops-exact-hit', 'item': 'LuaModuleIndex::find_module',
+         'pattern': r'(if let Some\(module_info\) = self\.find_module_by_normalized_path\(&module_path\) \{\s*)return Some\(module_info\);', 'repl': r'\1return None;',
+         'expect': r'C33\.module\.find-module-(exact-hit-first|strict-is-exact)'},
+        {'name': 'find-node-ignores-last-part', 'item': 'LuaModuleIndex::find_module_node', 'pattern': r'parent_node_id = \*child_id;', 'repl': 'parent_node_id = parent_node_id;',
+         'expect': r'C33\.module\.find-node'},
         {'name': 'clear-forgets-root', 'item': 'LuaModuleIndex::clear', 'pattern': r'self\.module_nodes\.insert\(self\.module_root_id, root_node\);', 'repl': '',
          'expect': r'C09\.module\.clear'},
         {'name': 'clear-keeps-file-map', 'item': 'LuaModuleIndex::clear', 'pattern': r'self\.file_module_map\.clear\(\);', 'repl': '',
@@ -530,6 +544,15 @@ UNIT = {
         'empty contract by the one proved here',
         'the rest of analyze_doc_tag_meta (version conditions after the slice) and DeclAnalyzer::get_file_id',
         'that ModuleNodeIds stay unobservable / that re-adding yields an isomorphic tree is only stated as C09.module.readd-sweeps-then-grows (sweep as by remove, then grow by the path), not as an isomorphism theorem',
+    ],
+    'findings': [
+        'C08/C33 (not an obligation of this unit; machine-checked witness: lemma_resubmission_changes_choice): which of several files registered under ONE module path a require '
+        'resolves to is the first visible entry of the node\'s file list (C33.module.find-resolves-path), and re-registering a file moves it to the END of that list '
+        '(remove leaves the other files in order, add pushes). Re-submitting the unchanged file /ws/a.lua while /ws/a/init.lua also exists (patterns ?.lua, ?/init.lua: both are '
+        'module "a") flips require("a") from a.lua to a/init.lua. Sequence on LuaModuleIndex: add_module_by_path(1, "/ws/a.lua"); add_module_by_path(2, "/ws/a/init.lua"); '
+        'find_module("a") -> file 1; add_module_by_path(1, "/ws/a.lua") [= update_file_by_uri: remove_index + module_analyze]; find_module("a") -> file 2',
+        'C20 (outside the precondition of the slice): a file WITHOUT module entry (add_module_by_path returned None: under no workspace root / matching no pattern, or a remote file) is never '
+        'marked meta by `---@meta`: set_meta is a no-op, `---@meta name` returns early at get_module(file_id)?; is_meta_file stays false and is_checker_enable_by_code does not suppress its diagnostics',
     ],
     'samples': [
         'remove(f): file_module_map\' = file_module_map - f; no node lists f; kept nodes keep parent / other files in order / kept children; removed nodes were not the root, had no other file '
